@@ -1,5 +1,5 @@
 from copy import copy
-from numpy import sqrt, log
+from numpy import sqrt, log, squeeze
 
 
 class EpsilonSelector:
@@ -23,7 +23,7 @@ class EpsilonSelector:
 
     def add_probability(self, p: float):
         # (a plain float: see Parameter.submit_accept_prob)
-        p = float(p)
+        p = float(squeeze(p))
         self.num += 1
         self.avg += p
         self.var += max(p * (1 - p), 0.03)
